@@ -55,6 +55,20 @@
 (*                different wrapper objects in every order (action Call):   *)
 (*                the outcome of a call depends on its own arguments only   *)
 (*                (CallsIndependent).                                       *)
+(*  LAYOUT      : every argument array of a solver (matrix A, right-hand    *)
+(*                side b, start vector x0; the point and the bounds of a    *)
+(*                projection) has a LAYOUT - how the same exact numbers are *)
+(*                stored: float64 array, integer array, float32 array,      *)
+(*                Fortran order, strided / reversed view, read-only array,  *)
+(*                python list, (n,1) / (1,n) / 0-d shapes.  The layout is a  *)
+(*                field `lay` of the problems of kind "cg" (the machine      *)
+(*                stores its iterate through Cast) and of the problems of    *)
+(*                kind "lay" (FISTA / ISTA, LM, the SciPy wrappers and the   *)
+(*                projections in postcondition form).  Invariant             *)
+(*                LayoutIndependent: the end point is the solution of the   *)
+(*                problem WITHOUT its layout and satisfies the optimality    *)
+(*                system (which never mentions a layout).  The arguments     *)
+(*                are never changed by an action (ArgumentsFrame).           *)
 (*                                                                         *)
 (* Named deviations (off in the deciding configurations):                  *)
 (*   PcglsIgnoresShift  : PCGLS drops the shift from s and delta            *)
@@ -62,6 +76,9 @@
 (*   StaleCachedOperand : a reassigned A does not clear the cached A^T b    *)
 (*   DefaultsLeakBetweenCalls : the default iteration limit of the first   *)
 (*                        call of the process governs every later call     *)
+(*   IterateKeepsStartDtype : the iterate is stored in a buffer that has   *)
+(*                        the layout of the start vector: an integer start *)
+(*                        truncates every iterate towards zero             *)
 (***************************************************************************)
 EXTENDS MatQ, FiniteSets, TLC, Json
 
@@ -72,14 +89,15 @@ CONSTANTS MaxDim,            \* CGLS: all full-rank A in {-1,0,1}^(m x n), m, n 
                              \* 2 (thorough): every b in the box, all 2x2 unimodular matrices over {-1,0,1,2}, and 3x3
           MagBound,          \* cg: a state whose numerators / denominators exceed this is not iterated further (32-bit TLC)
           MagBound3,         \* the same bound for the problems with a dimension equal to 3
-          Kinds,             \* subset of {"cg", "cgill", "prox", "kkt", "lm", "wrap", "seq", "proc"}
+          Kinds,             \* subset of {"cg", "cgill", "prox", "kkt", "lm", "wrap", "seq", "proc", "lay"}
           Emit,
           SeqLen,            \* seq: number of operations per behaviour (the last one is a Solve)
           SeqSets,           \* seq: at most this many reassignments per behaviour
           PcglsIgnoresShift,
           MaximizeDropsSign,
           StaleCachedOperand,
-          DefaultsLeakBetweenCalls
+          DefaultsLeakBetweenCalls,
+          IterateKeepsStartDtype
 
 VARIABLES pb,     \* the problem (record with field kind)
           ph,     \* "new": problem chosen, nothing computed yet; "run": state initialised
@@ -97,6 +115,56 @@ Two   == R(2)
 Run(kind) == ph = "run" /\ pb.kind = kind
 
 (***************************************************************************)
+(* LAYOUT of the argument arrays (field `lay` of a problem)                *)
+(*                                                                         *)
+(*   "f64"     : C-contiguous float64 array (the layout of every other kind)*)
+(*   "int"     : integer array (admissible only when the data are integers) *)
+(*   "f32"     : float32 array (the data of the spec are small integers /   *)
+(*               dyadic rationals: exactly representable)                   *)
+(*   "fortran" : column-major matrix                                        *)
+(*   "view"    : non-contiguous view (every second element of a buffer)     *)
+(*   "rev"     : view with negative strides                                 *)
+(*   "ro"      : read-only array (flags.writeable = False)                  *)
+(*   "list"    : (nested) python list                                       *)
+(*   "col" / "row" / "scalar" : (n,1) / (1,n) array, 0-d (projections only:  *)
+(*               their arguments are documented as array_like)              *)
+(*   "na"      : the solver has no such argument                            *)
+(* A layout is a way of STORING the exact numbers of the problem: it is not *)
+(* an operand of the mathematics.  The only place where the machine touches *)
+(* it is Cast: storing a vector in the buffer of the iterate.  Intended     *)
+(* design: the iterate is kept in working precision whatever the start      *)
+(* vector looked like (Cast = identity).  Deviation IterateKeepsStartDtype: *)
+(* the buffer has the layout of the start vector, an integer start          *)
+(* truncates towards zero (numpy's cast float -> int).                      *)
+(***************************************************************************)
+LayVec == {"f64", "int", "f32", "view", "rev", "ro", "list"}
+LayMat == LayVec \cup {"fortran"}
+Lay(a, b, x) == [A |-> a, b |-> b, x0 |-> x]
+NoLay == Lay("f64", "f64", "f64")
+NonDefault(t) == Cardinality({ f \in {"A", "b", "x0"} : t[f] \notin {"f64", "na"} })
+
+\* each argument's layout varied alone ...
+LaySingles == { Lay(a, "f64", "f64") : a \in LayMat \ {"f64"} } \cup { Lay("f64", b, "f64") : b \in LayVec \ {"f64"} }
+              \cup { Lay("f64", "f64", x) : x \in LayVec \ {"f64"} }
+\* ... all arguments in the same layout, and some mixed ones (never float32 for ALL arguments: that is a problem posed
+\* and solved in single precision, whose accuracy is not that of the float64 problem)
+LayDiag == { Lay(l, l, l) : l \in {"int", "view", "rev", "ro", "list"} }
+           \cup { Lay("f32", "f32", "f64"), Lay("fortran", "int", "ro"), Lay("int", "f32", "view"), Lay("ro", "list", "int") }
+\* ... every pair of layouts of two arguments (thorough tier)
+LayPairs == { t \in { Lay(a, b, x) : a \in LayMat, b \in LayVec, x \in LayVec } : NonDefault(t) = 2 }
+LayTriples == LaySingles \cup LayDiag \cup (IF Level >= 2 THEN LayPairs ELSE {})
+\* solvers with a start vector only
+LayStarts == { Lay("na", "na", x) : x \in LayVec }
+
+IsInt(a) == a[2] = 1
+IntVec(v) == \A i \in 1..Len(v) : IsInt(v[i])
+IntMat(M) == \A i \in 1..Len(M) : IntVec(M[i])
+\* truncation towards zero
+Trunc(a) == IF a[1] >= 0 THEN R(a[1] \div a[2]) ELSE R(-((-a[1]) \div a[2]))
+\* storing the vector v in the buffer of the iterate of a run whose start vector has the layout l
+Cast(l, v) == IF IterateKeepsStartDtype /\ l = "int" THEN F([i \in 1..Len(v) |-> Trunc(v[i])]) ELSE v
+
+(***************************************************************************)
 (* kind "cg"                                                               *)
 (***************************************************************************)
 Ent == {-1, 0, 1}
@@ -108,9 +176,10 @@ RECURSIVE Flatten(_)
 Flatten(M) == IF M = <<>> THEN <<>> ELSE Head(M) \o Flatten(Tail(M))
 Code(A) == CodeSeq(Flatten(A))
 
-CgProblems(solver, m, n, As, Bs, Xs, Shs, Ps) ==
-    { [kind |-> "cg", solver |-> solver, m |-> m, n |-> n, A |-> A, b |-> b, x0 |-> x0, shift |-> sh, P |-> P] :
-        A \in As, b \in Bs, x0 \in Xs, sh \in Shs, P \in Ps }
+CgProblemsL(solver, m, n, As, Bs, Xs, Shs, Ps, Ls) ==
+    { [kind |-> "cg", solver |-> solver, m |-> m, n |-> n, A |-> A, b |-> b, x0 |-> x0, shift |-> sh, P |-> P, lay |-> l] :
+        A \in As, b \in Bs, x0 \in Xs, sh \in Shs, P \in Ps, l \in Ls }
+CgProblems(solver, m, n, As, Bs, Xs, Shs, Ps) == CgProblemsL(solver, m, n, As, Bs, Xs, Shs, Ps, {NoLay})
 
 \* unit-triangular integer preconditioners (det 1: P^-1 is an integer matrix)
 Precs(n) == IF n = 2 THEN { <<<<1, 0>>, <<1, 1>>>>, <<<<1, -2>>, <<0, 1>>>> }
@@ -147,6 +216,18 @@ Cg3 ==
                             B3(sh[1]), X3(3), {0, 1}, Precs(3)) : sh \in {<<3, 3>>, <<2, 3>>} }
 
 CgAll == CgSmall \cup PcgSmall \cup Cg3
+
+\* the LAYOUT dimension of the conjugate-gradient solvers: a few problems (square, tall, under-determined; integer data, so
+\* that every layout is admissible) x shift x every layout triple.  The machine below runs them as every other cg problem.
+LaySq   == { <<<<1, 0>>, <<1, 1>>>>, <<<<1, -1>>, <<-1, 0>>>> }
+LayTall == { <<<<1, -1>>, <<1, 1>>, <<0, 1>>>> }
+LayWide == { <<<<1, -1>>>> }
+CgLay ==
+         CgProblemsL("cgls", 2, 2, LaySq, {<<2, -1>>}, {<<1, -1>>}, {0, 1}, {<<>>}, LayTriples \cup {NoLay})
+    \cup CgProblemsL("cgls", 3, 2, LayTall, {<<-1, 2, 1>>}, {<<0, 1>>}, {0, 1}, {<<>>}, LayTriples \cup {NoLay})
+    \cup CgProblemsL("cgls", 1, 2, LayWide, {<<2>>}, {<<1, 0>>}, {0}, {<<>>}, LayTriples \cup {NoLay})
+    \cup CgProblemsL("pcgls", 2, 2, {<<<<1, 0>>, <<1, 1>>>>}, {<<2, -1>>}, {<<1, -1>>}, {0, 1}, Precs(2), LayTriples \cup {NoLay})
+    \cup CgProblemsL("pcgls", 3, 2, LayTall, {<<-1, 2, 1>>}, {<<0, 1>>}, {1}, {<<<<1, -2>>, <<0, 1>>>>}, LayTriples \cup {NoLay})
 
 IsPc(p)     == p.solver = "pcgls"
 EffShift(p) == IF IsPc(p) /\ PcglsIgnoresShift THEN Zero ELSE R(p.shift)
@@ -186,7 +267,7 @@ Iterate ==
            q     == F(QMV(A, t))
            delta == QAdd(QNorm2(q), QMul(sh, QNorm2(t)))
            alpha == F(QDiv(it.gamma, delta))
-           x1    == F(QAxpy(it.x, alpha, t))
+           x1    == F(Cast(pb.lay.x0, QAxpy(it.x, alpha, t)))                 \* x += alpha t, stored in the iterate buffer
            r1    == F(QAxpy(it.r, QNeg(alpha), q))
            s1    == F(ApplyPinvT(pb, Pinv, QVSub(QMV(MT(A), r1), QVScale(sh, x1))))
            gam1  == F(QNorm2(s1))
@@ -248,7 +329,7 @@ SolutionReached ==
 EmitCg ==
     (Emit /\ Run("cg") /\ it.status # "iter") =>
         PrintT("@@CASE " \o ToJson([kind |-> "cg", solver |-> pb.solver, m |-> pb.m, n |-> pb.n, A |-> pb.A, b |-> pb.b,
-                                    x0 |-> pb.x0, shift |-> pb.shift, P |-> pb.P, k |-> it.k, status |-> it.status,
+                                    x0 |-> pb.x0, shift |-> pb.shift, P |-> pb.P, lay |-> pb.lay, k |-> it.k, status |-> it.status,
                                     xsol |-> CgSolution(pb), steps |-> hist]) \o " @@END")
 
 (***************************************************************************)
@@ -1134,12 +1215,144 @@ EmitProc ==
                                                   limit |-> hist[i].limit, doclimit |-> DocLimit(c), dim |-> ProcDim(c)]]]) \o " @@END")
 
 (***************************************************************************)
+(* kind "lay": the LAYOUT dimension of the solvers that are specified in   *)
+(* postcondition form (FISTA / ISTA, LM, the SciPy wrappers) and of the     *)
+(* projections.  (CGLS / PCGLS: problems CgLay of kind "cg" above.)         *)
+(*                                                                         *)
+(*   pb.solver : "fista", "lm", "wrap", "prox"                              *)
+(*   pb.prob   : the problem - a record of kind kkt / lm / wrap / prox      *)
+(*   pb.x0     : the start vector (fista, lm, wrap; the point x of a prox)  *)
+(*   pb.lay    : the layouts of A, b, x0 ("na": no such argument); for a    *)
+(*               projection lay.x0 is the layout of the point and lay.b the *)
+(*               layout of the bounds of the box                            *)
+(* LaySolution : the admissible end points, defined from pb.prob alone;     *)
+(* LayEnd      : what the iterate buffer holds when the run has converged   *)
+(*               to them (Cast by the layout of the start vector).          *)
+(***************************************************************************)
+LayKktRec(A, rg, xs, g) == [kind |-> "kkt", n |-> 2, A |-> A, reg |-> rg, xs |-> xs, g |-> g]
+LayA1 == <<<<1, 1>>, <<0, 1>>>>
+LayA3 == <<<<0, -1>>, <<1, 1>>>>
+LayKkt ==
+    { \* l1, strength 1/2: integer right-hand side (1, -1), NON-integer minimiser
+      LayKktRec(LayA1, Rg("l1", Half, "none", Zero, Zero, <<>>, <<>>), <<Half, Zero>>, <<Half, QNeg(Half)>>),
+      \* l1, strength 1: everything integer
+      LayKktRec(LayA1, Rg("l1", One, "none", Zero, Zero, <<>>, <<>>), <<R(-1), Zero>>, <<R(-1), Zero>>),
+      \* non-negativity, minimiser (3/2, 0) with an active constraint
+      LayKktRec(LayA1, Rg("nonneg", Zero, "none", Zero, Zero, <<>>, <<>>), <<Half3, Zero>>, <<Zero, R(-1)>>),
+      \* box [0, 1]: interior component 1/2, active upper bound
+      LayKktRec(LayA1, Rg("box", Zero, "scalar", Zero, One, <<>>, <<>>), <<Half, One>>, <<Zero, One>>),
+      \* one-sided box (-inf, 1]: everything integer
+      LayKktRec(LayA3, Rg("box", Zero, "scalar", NInf, One, <<>>, <<>>), <<R(-1), One>>, <<Zero, One>>) }
+LayFistaX0 == { <<R(3), R(-2)>> }
+
+LayLm == { [kind |-> "lm", fam |-> "lin", B |-> <<<<1, 0>>, <<0, 1>>, <<1, 1>>>>, c |-> <<-1, 2, 3>>, a |-> 0, d |-> 0],
+           [kind |-> "lm", fam |-> "sq", B |-> <<>>, c |-> <<>>, a |-> 1, d |-> -1],
+           [kind |-> "lm", fam |-> "para", B |-> <<>>, c |-> <<>>, a |-> 2, d |-> 1] }
+LayLmX0 == { LmStarts[1], LmStarts[8] }
+
+LayWrap == { [kind |-> "wrap", wrapper |-> w, method |-> IF w = "LS" THEN "trf" ELSE "default", obj |-> "quad", a |-> <<1, 2>>,
+              c |-> <<1, -2>>, x0 |-> <<2, 1>>, grad |-> gr, opt |-> BaseOpt(w)] :
+                w \in {"minimize", "maximize", "LS", "L_BFGS_B"}, gr \in BOOLEAN }
+
+\* points: half-integer and integer ones
+LayPts == { <<Q(-3, 2), Half>>, <<R(2), R(-1)>>, <<Zero, Half3>>, <<R(-1), Zero>>, <<Half, R(-2)>>, <<R(-2), R(2)>> }
+LayIntBox == Bx("int_vector", "vector", "vector", <<R(-1), Zero>>, <<One, R(2)>>)        \* integer bounds: admissible as integer arrays
+LayProx == { c \in ProxCases : /\ c.x \in LayPts
+                              /\ (c.op = "box" => c.box \in {"default", "vector", "lower_only_vector", "mixed_vector"})
+                              /\ (c.op = "l1" => c.gam \in {Half, One})
+                              /\ c.op # "l1s" }
+           \cup { [kind |-> "prox", op |-> "box", x |-> x, th |-> Zero, gam |-> Zero, lam |-> Zero, box |-> LayIntBox.name,
+                   form |-> LayIntBox.form, lo |-> LayIntBox.lo, up |-> LayIntBox.up] : x \in LayPts }
+\* layouts of a point (array_like): also (n,1) / (1,n) arrays and 0-d (each component on its own)
+LayPt  == {"f64", "int", "f32", "view", "rev", "ro", "list", "col", "row", "scalar"}
+LayBnd == {"f64", "int", "f32", "ro", "list", "view"}
+HasVecBounds(c) == c.op = "box" /\ "vector" \in {c.form[1], c.form[2]}
+LayProxLays(c) ==
+    IF HasVecBounds(c)
+      THEN { Lay("na", "f64", x) : x \in LayPt } \cup { Lay("na", b, "f64") : b \in LayBnd } \cup { Lay("na", l, l) : l \in LayBnd }
+      ELSE { Lay("na", "na", x) : x \in LayPt }
+
+LayAll ==
+         { [kind |-> "lay", solver |-> "fista", prob |-> c, x0 |-> x0, lay |-> l] : c \in LayKkt, x0 \in LayFistaX0, l \in LayTriples \cup {NoLay} }
+    \cup { [kind |-> "lay", solver |-> "lm", prob |-> c, x0 |-> x0, lay |-> l] : c \in LayLm, x0 \in LayLmX0, l \in LayStarts }
+    \cup { [kind |-> "lay", solver |-> "wrap", prob |-> k, x0 |-> VR(k.x0), lay |-> l] : k \in LayWrap, l \in LayStarts }
+    \cup UNION { { [kind |-> "lay", solver |-> "prox", prob |-> c, x0 |-> c.x, lay |-> l] : l \in LayProxLays(c) } : c \in LayProx }
+
+FinIntVec(v) == \A i \in 1..Len(v) : IsFin(v[i]) /\ IsInt(v[i])
+\* an integer layout is admissible only for integer data (the data ARE the exact numbers of the problem); float32 only for
+\* dyadic data (exactly representable)
+LayOk(p) ==
+    /\ (p.lay.x0 = "int" => IntVec(p.x0))
+    /\ (p.solver = "fista" => /\ Dyadic(KktB(p.prob))
+                              /\ (p.lay.b = "int" => IntVec(KktB(p.prob))))
+    /\ (p.solver = "prox" => (p.lay.b = "int" => FinIntVec(p.prob.lo) /\ FinIntVec(p.prob.up)))
+LayProblems == { p \in LayAll : LayOk(p) }
+
+LaySolution(p) ==
+    CASE p.solver = "fista" -> { p.prob.xs }
+      [] p.solver = "lm"    -> LmStat(p.prob)
+      [] p.solver = "wrap"  -> { VR(p.prob.c) }
+      [] p.solver = "prox"  -> { ProxOut(p.prob) }
+LayEnd(p) == IF p.solver = "prox" THEN LaySolution(p) ELSE { Cast(p.lay.x0, x) : x \in LaySolution(p) }
+
+\* the optimality system of the problem (no layout anywhere)
+LayOptimal(p, x) ==
+    CASE p.solver = "fista" ->
+            LET c == p.prob  A == MR(c.A)  b == KktB(c)  grad == QMV(MT(A), QVSub(QMV(A, x), b))  st == KktSteps(c)
+            IN /\ InDom(c.reg, x)
+               /\ \A t \in {st[1], st[2], One} : ProxH(c.reg, QVSub(x, QVScale(t, grad)), t) = x
+      [] p.solver = "lm"    -> LmGrad(p.prob, x) = <<Zero, Zero>>
+      [] p.solver = "wrap"  -> /\ SciPyGrad(p.prob, x) = <<Zero, Zero>>
+                               /\ \A z \in ILat2(-3, 3) : RLe(SciPyF(p.prob, x), SciPyF(p.prob, z))
+      [] p.solver = "prox"  -> x = ProxOut(p.prob) /\ InSet(p.prob, x)
+
+\* The end point does not depend on the layout of any argument: it is the solution of the problem without its layout and
+\* satisfies the optimality system.  For the conjugate-gradient machine: the recurrence residual stays the residual of
+\* the STORED iterate, and at termination the stored iterate is CgSolution (which reads A, b, x0, shift, P only).
+LayoutIndependent ==
+    /\ Run("lay") =>
+          /\ LayOk(pb)
+          /\ LayEnd(pb) = LaySolution(pb)
+          /\ LayEnd(pb) # {}
+          /\ \A x \in LayEnd(pb) : LayOptimal(pb, x)
+    /\ (Live /\ pb.lay # NoLay) =>
+          /\ IntMat(MR(pb.A)) /\ IntVec(VR(pb.b)) /\ IntVec(VR(pb.x0))
+          /\ it.r = QVSub(VR(pb.b), QMV(MR(pb.A), it.x))
+          /\ (it.status = "converged" => it.x = CgSolution([pb EXCEPT !.lay = NoLay]))
+
+\* frame: no action changes the arguments of the problem (the replayer compares every argument buffer with a copy taken
+\* before the call)
+ArgumentsFrame == [][pb' = pb]_vars
+
+LayJson(p) ==
+    LET c == p.prob IN
+    CASE p.solver = "fista" ->
+            [kind |-> "lay", solver |-> "fista", lay |-> p.lay, x0 |-> p.x0, n |-> c.n, A |-> c.A, b |-> KktB(c), h |-> c.reg.h,
+             lam |-> c.reg.lam, bform |-> c.reg.bform, lo |-> [i \in 1..c.n |-> Ext(LoAt(c.reg, i))],
+             up |-> [i \in 1..c.n |-> Ext(UpAt(c.reg, i))], xs |-> c.xs, g |-> c.g, steps |-> KktSteps(c), exp |-> LayEnd(p)]
+      [] p.solver = "lm" ->
+            [kind |-> "lay", solver |-> "lm", lay |-> p.lay, x0 |-> p.x0, fam |-> c.fam, B |-> c.B, c |-> c.c, a |-> c.a, d |-> c.d,
+             stat |-> LmStat(c), g0 |-> LmGrad(c, p.x0), exp |-> LayEnd(p)]
+      [] p.solver = "wrap" ->
+            [kind |-> "lay", solver |-> "wrap", lay |-> p.lay, wrapper |-> c.wrapper, method |-> c.method, obj |-> c.obj, a |-> c.a,
+             c |-> c.c, x0 |-> c.x0, grad |-> c.grad, opt |-> c.opt, kw |-> OptTable(c.wrapper)[c.opt],
+             sign |-> WrapSign(c.wrapper), sense |-> Sense(c.wrapper), info |-> InfoMap(c.wrapper),
+             warn |-> IF c.wrapper = "L_BFGS_B" THEN [wf \in 1..3 |-> WarnMap[wf - 1]] ELSE <<>>,
+             args |-> IF c.wrapper = "LS" THEN LsArgMap ELSE [none |-> "none"], exp |-> LayEnd(p)]
+      [] p.solver = "prox" ->
+            [kind |-> "lay", solver |-> "prox", lay |-> p.lay, op |-> c.op, x |-> c.x, gam |-> c.gam, lam |-> c.lam, box |-> c.box,
+             form |-> c.form, lo |-> ExtV(c.lo), up |-> ExtV(c.up), out |-> ProxOut(c)]
+EmitLay ==
+    (Emit /\ Run("lay")) => PrintT("@@CASE " \o ToJson(LayJson(pb)) \o " @@END")
+
+(***************************************************************************)
 AllProblems ==
     (IF "cg" \in Kinds THEN CgAll ELSE {}) \cup (IF "prox" \in Kinds THEN ProxCases ELSE {})
     \cup (IF "kkt" \in Kinds THEN KktAll ELSE {}) \cup (IF "lm" \in Kinds THEN LmProblems ELSE {})
     \cup (IF "wrap" \in Kinds THEN WrapCases ELSE {})
     \cup (IF "seq" \in Kinds THEN SeqBases ELSE {})
     \cup (IF "cgill" \in Kinds THEN IllCases ELSE {}) \cup (IF "proc" \in Kinds THEN ProcProblems ELSE {})
+    \cup (IF "lay" \in Kinds THEN CgLay \cup LayProblems ELSE {})
 
 \* Init only chooses the problem; everything is computed by Start (TLC evaluates Init on one thread only)
 Init == pb \in AllProblems /\ ph = "new" /\ it = <<>> /\ hist = <<>>
